@@ -67,13 +67,13 @@ theorem translateOffset_pos16 {ind : Bool} {row : InstrRow} {c i : Nat} {h : Opt
     h4, is8Bit, h8, numV_byte hraw, numericOfInt_hint 4 hi]
   rfl
 
-/-- 8-bit negative offset: the additional byte is built but `size` is NOT increased (finding) -/
+/-- 8-bit negative offset: the two's complement byte, counted in `size` (since the repair of A4) -/
 theorem translateOffset_neg8 {ind : Bool} {row : InstrRow} {c i : Nat} {h : Option Nat} {m : Mode} {right : Str}
     {raw0 : Nat} (hc : row.ind = some c) (hc' : c < 65536) (hr : PlainReg right)
     (hlo : ind = true ∨ 17 ≤ i) (h1 : 1 ≤ i) (hi : i ≤ 128) (hraw : raw0 ||| ((if ind then 0x90 else 0x80) + 0x08) < 256) :
     translateOffset ind row (.numeric i h m true) right raw0 =
       .ok { opCode := opv c, postByte := .numeric (raw0 ||| ((if ind then 0x90 else 0x80) + 0x08)) (some 2) .direct false,
-            additional := .numeric (0x100 - i) (some 2) .direct false, size := row.indSz, maxSize := row.indSz,
+            additional := .numeric (0x100 - i) (some 2) .direct false, size := row.indSz + 1, maxSize := row.indSz + 1,
             needsRes := false } := by
   have h4 : (!ind && is4Bit i true) = false := by
     rcases hlo with rfl | h16
@@ -82,6 +82,27 @@ theorem translateOffset_neg8 {ind : Bool} {row : InstrRow} {c i : Nat} {h : Opti
       simp [is4Bit, this]
   simp [translateOffset, hr.noPlus, hr.noMinus, hr.noPcr, hc, opVal_ok hc', Value.isExpression, Value.isAddrExpr,
     h4, is8Bit, hi, numV_byte hraw, numV_byte (show 0x100 - i < 256 by omega)]
+  rfl
+
+/-- `NumericValue(v)` of a value 256..65535 -/
+theorem numericOfInt_word {v : Nat} (h1 : 256 ≤ v) (h2 : v < 65536) :
+    numericOfInt (v : Int) none .none = .ok (.numeric v none .extended false) := numV_word h1 h2
+
+/-- 16-bit negative offset: the two's complement word, counted in `size` -/
+theorem translateOffset_neg16 {ind : Bool} {row : InstrRow} {c i : Nat} {h : Option Nat} {m : Mode} {right : Str}
+    {raw0 : Nat} (hc : row.ind = some c) (hc' : c < 65536) (hr : PlainReg right)
+    (hlo : 129 ≤ i) (hi : i ≤ 32768) (hraw : raw0 ||| ((if ind then 0x90 else 0x80) + 0x09) < 256) :
+    translateOffset ind row (.numeric i h m true) right raw0 =
+      .ok { opCode := opv c, postByte := .numeric (raw0 ||| ((if ind then 0x90 else 0x80) + 0x09)) (some 2) .direct false,
+            additional := .numeric (0x10000 - i) none .extended false, size := row.indSz + 2, maxSize := row.indSz + 2,
+            needsRes := false } := by
+  have h4 : (!ind && is4Bit i true) = false := by
+    have : ¬ i ≤ 16 := by omega
+    simp [is4Bit, this]
+  have h8 : ¬ i ≤ 128 := by omega
+  have e : (65536 : Int) - (i : Int) = ((0x10000 - i : Nat) : Int) := by omega
+  simp [translateOffset, hr.noPlus, hr.noMinus, hr.noPcr, hc, opVal_ok hc', Value.isExpression, Value.isAddrExpr,
+    h4, is8Bit, h8, numV_byte hraw, e, numericOfInt_word (show 256 ≤ 0x10000 - i by omega) (show 0x10000 - i < 65536 by omega)]
   rfl
 
 /-! ### from the operand to `translateOffset` -/
@@ -122,6 +143,9 @@ theorem or_neg5 : ∀ i, i < 17 → 1 ≤ i → 0x10 ||| (0x10 - i) = 32 - i := 
 
 /-! ### round trips -/
 
+theorem byteField_pos {i : Nat} : byteField i false = i := rfl
+theorem wordField_pos {i : Nat} : wordField i false = i := rfl
+
 theorem enc_off_pos5 {o : Operand} {r : InstrRow} {c i k : Nat} {h : Option Nat} {m : Mode}
     (hk : o.kind = .indexed) (hc : r.ind = some c) (hlk : lookup c = some (opOf r.mnemonic, .idx))
     (hs : r.indSz = opcodeLen c + 1) (hl : o.left = .val (.numeric i h m false)) (h1 : 1 ≤ i) (h2 : i ≤ 15)
@@ -131,7 +155,7 @@ theorem enc_off_pos5 {o : Operand} {r : InstrRow} {c i k : Nat} {h : Option Nat}
   have ht : translateOperand o r = translateIndexed o r := by simp [translateOperand, hk]
   rw [translateIndexed_offset hc h0 (cell_lt hlk) hl (by omega) hr,
     translateOffset_pos5 hc (cell_lt hlk) (regName_plain k hk4) h2 (by rw [hp]; omega), hp] at ht
-  refine enc_idx_gen (ad := []) hlk ht rfl rfl (by omega) (by simp) (by simp [hs]) ?_
+  refine enc_idx_gen hlk ht rfl rfl rfl (by omega) rfl (by simp [hs]) ?_
   have a : 32 * k + i < 128 := by omega
   have b : (32 * k + i) / 32 % 4 = k := by omega
   have d : (32 * k + i) % 32 = i := by omega
@@ -149,7 +173,7 @@ theorem enc_off_neg5 {o : Operand} {r : InstrRow} {c i k : Nat} {h : Option Nat}
   have ht : translateOperand o r = translateIndexed o r := by simp [translateOperand, hk]
   rw [translateIndexed_offset hc h0 (cell_lt hlk) hl (by omega) hr,
     translateOffset_neg5 hc (cell_lt hlk) (regName_plain k hk4) h2 (by rw [hp]; omega), hp] at ht
-  refine enc_idx_gen (ad := []) hlk ht rfl rfl (by omega) (by simp) (by simp [hs]) ?_
+  refine enc_idx_gen hlk ht rfl rfl rfl (by omega) rfl (by simp [hs]) ?_
   have a : 32 * k + (32 - i) < 128 := by omega
   have b : (32 * k + (32 - i)) / 32 % 4 = k := by omega
   have d : (32 * k + (32 - i)) % 32 = 32 - i := by omega
@@ -158,10 +182,51 @@ theorem enc_off_neg5 {o : Operand} {r : InstrRow} {c i k : Nat} {h : Option Nat}
   simp [sext, e]
   omega
 
-theorem enc_off_pos8 {o : Operand} {r : InstrRow} {c i k : Nat} {h : Option Nat} {m : Mode}
-    (hk : o.kind = .indexed) (hc : r.ind = some c) (hlk : lookup c = some (opOf r.mnemonic, .idx))
+/-- the decoder on an 8-bit offset post byte (`q` = 8 direct, 24 indirect) -/
+theorem decode_off8 {k q b : Nat} (hk4 : k < 4) (hq : q = 8 ∨ q = 24) (rest : Bytes) :
+    decodePostByte ((128 + 32 * k + q) :: b :: rest) = some (.off k (sext b 8) (q = 24) 8, 2) := by
+  have a : ¬ 128 + 32 * k + q < 128 := by omega
+  have b' : (128 + 32 * k + q) / 32 % 4 = k := by omega
+  have d : (128 + 32 * k + q) % 16 = 8 := by omega
+  rw [decodePostByte_cons, if_neg a, b', d]
+  rcases hq with rfl | rfl
+  · have e : (128 + 32 * k + 8) / 16 % 2 = 0 := by omega
+    simp [e]
+  · have e : (128 + 32 * k + 24) / 16 % 2 = 1 := by omega
+    simp [e]
+
+/-- the decoder on a 16-bit offset post byte (`q` = 9 direct, 25 indirect) -/
+theorem decode_off16 {k q hi lo : Nat} (hk4 : k < 4) (hq : q = 9 ∨ q = 25) (rest : Bytes) :
+    decodePostByte ((128 + 32 * k + q) :: hi :: lo :: rest) = some (.off k (sext (hi * 256 + lo) 16) (q = 25) 16, 3) := by
+  have a : ¬ 128 + 32 * k + q < 128 := by omega
+  have b' : (128 + 32 * k + q) / 32 % 4 = k := by omega
+  have d : (128 + 32 * k + q) % 16 = 9 := by omega
+  rw [decodePostByte_cons, if_neg a, b', d]
+  rcases hq with rfl | rfl
+  · have e : (128 + 32 * k + 9) / 16 % 2 = 0 := by omega
+    simp [e]
+  · have e : (128 + 32 * k + 25) / 16 % 2 = 1 := by omega
+    simp [e]
+
+theorem sext8_pos {i : Nat} (h : i ≤ 127) : sext i 8 = (i : Int) := by
+  have : ¬ i ≥ 128 := by omega
+  simp [sext, this]
+theorem sext8_neg {i : Nat} (h1 : 1 ≤ i) (h2 : i ≤ 128) : sext (256 - i) 8 = -(i : Int) := by
+  have : 256 - i ≥ 128 := by omega
+  simp [sext, this]; omega
+theorem sext16_neg {i : Nat} (h1 : 1 ≤ i) (h2 : i ≤ 32768) : sext (65536 - i) 16 = -(i : Int) := by
+  have : 65536 - i ≥ 32768 := by omega
+  simp [sext, this]; omega
+
+section fitted
+variable {o : Operand} {r : InstrRow} {c i k : Nat} {h : Option Nat} {m : Mode}
+  (hpr : r.isPseudo = false) (hsp : r.isSpecial = false)
+include hpr hsp
+
+/-- `n,R`, 16 ≤ n ≤ 127, whatever the size hint of the literal (the field is fitted to one byte) -/
+theorem enc_off_pos8 (hk : o.kind = .indexed) (hc : r.ind = some c) (hlk : lookup c = some (opOf r.mnemonic, .idx))
     (hs : r.indSz = opcodeLen c + 1) (hl : o.left = .val (.numeric i h m false)) (h1 : 16 ≤ i) (h2 : i ≤ 127)
-    (hh : h = none ∨ h = some 2) (hk4 : k < 4) (hr : o.right = some (regName k)) :
+    (hk4 : k < 4) (hr : o.right = some (regName k)) :
     Encodes o r (.idx (.off k i false 8)) := by
   have h0 := cell_ne_zero hlk (by decide)
   have hp : regBits (regName k) ||| ((if false = true then 0x90 else 0x80) + 0x08) = 128 + 32 * k + 8 := by
@@ -169,17 +234,29 @@ theorem enc_off_pos8 {o : Operand} {r : InstrRow} {c i k : Nat} {h : Option Nat}
   have ht : translateOperand o r = translateIndexed o r := by simp [translateOperand, hk]
   rw [translateIndexed_offset hc h0 (cell_lt hlk) hl (by omega) hr,
     translateOffset_pos8 hc (cell_lt hlk) (regName_plain k hk4) (Or.inr h1) h2 (by rw [hp]; omega), hp] at ht
-  refine enc_idx_gen (ad := [i]) hlk ht rfl rfl (by omega) (emit_byte m (by omega) hh) (by simp [hs]) ?_
-  have a : ¬ 128 + 32 * k + 8 < 128 := by omega
-  have b : (128 + 32 * k + 8) / 32 % 4 = k := by omega
-  have d : (128 + 32 * k + 8) % 16 = 8 := by omega
-  have e : (128 + 32 * k + 8) / 16 % 2 = 0 := by omega
-  have f : ¬ i ≥ 128 := by omega
-  rw [decodePostByte_cons, if_neg a, b, d, e]
-  simp [sext, f]
+  have hf : fitsByte i false = true := by simp [fitsByte]; omega
+  refine enc_idx_fit (ad := [byteField i false]) hpr hsp hlk ht rfl rfl rfl (by omega) rfl (.byte hf) (by simp [hs]) ?_
+  rw [decode_off8 hk4 (Or.inl rfl), byteField_pos, sext8_pos h2]
+  simp
 
-theorem enc_off_pos16 {o : Operand} {r : InstrRow} {c i k : Nat} {h : Option Nat} {m : Mode}
-    (hk : o.kind = .indexed) (hc : r.ind = some c) (hlk : lookup c = some (opOf r.mnemonic, .idx))
+/-- `-n,R`, 17 ≤ n ≤ 128: post byte, then the two's complement byte; `size` counts it -/
+theorem enc_off_neg8 (hk : o.kind = .indexed) (hc : r.ind = some c) (hlk : lookup c = some (opOf r.mnemonic, .idx))
+    (hs : r.indSz = opcodeLen c + 1) (hl : o.left = .val (.numeric i h m true)) (h1 : 17 ≤ i) (h2 : i ≤ 128)
+    (hk4 : k < 4) (hr : o.right = some (regName k)) :
+    Encodes o r (.idx (.off k (-(i : Int)) false 8)) := by
+  have h0 := cell_ne_zero hlk (by decide)
+  have hp : regBits (regName k) ||| ((if false = true then 0x90 else 0x80) + 0x08) = 128 + 32 * k + 8 := by
+    rw [regBits_regName k hk4]; exact or_high k hk4 8 (by omega)
+  have ht : translateOperand o r = translateIndexed o r := by simp [translateOperand, hk]
+  rw [translateIndexed_offset hc h0 (cell_lt hlk) hl (by omega) hr,
+    translateOffset_neg8 hc (cell_lt hlk) (regName_plain k hk4) (Or.inr h1) (by omega) h2 (by rw [hp]; omega), hp] at ht
+  have hf : fitsByte (0x100 - i) false = true := by simp [fitsByte]; omega
+  refine enc_idx_fit (ad := [byteField (0x100 - i) false]) hpr hsp hlk ht rfl rfl rfl (by omega) rfl (.byte hf) (by simp [hs]) ?_
+  rw [decode_off8 hk4 (Or.inl rfl), byteField_pos, sext8_neg (by omega) h2]
+  simp
+
+/-- `n,R`, 128 ≤ n ≤ 65535 -/
+theorem enc_off_pos16 (hk : o.kind = .indexed) (hc : r.ind = some c) (hlk : lookup c = some (opOf r.mnemonic, .idx))
     (hs : r.indSz = opcodeLen c + 1) (hl : o.left = .val (.numeric i h m false)) (h1 : 128 ≤ i) (h2 : i < 65536)
     (hk4 : k < 4) (hr : o.right = some (regName k)) :
     Encodes o r (.idx (.off k (sext i 16) false 16)) := by
@@ -189,20 +266,34 @@ theorem enc_off_pos16 {o : Operand} {r : InstrRow} {c i k : Nat} {h : Option Nat
   have ht : translateOperand o r = translateIndexed o r := by simp [translateOperand, hk]
   rw [translateIndexed_offset hc h0 (cell_lt hlk) hl (by omega) hr,
     translateOffset_pos16 hc (cell_lt hlk) (regName_plain k hk4) h1 h2 (by rw [hp]; omega), hp] at ht
-  refine enc_idx_gen (ad := [i / 256, i % 256]) hlk ht rfl rfl (by omega) (emit_hint4 _ h2) (by simp [hs]) ?_
-  have a : ¬ 128 + 32 * k + 9 < 128 := by omega
-  have b : (128 + 32 * k + 9) / 32 % 4 = k := by omega
-  have d : (128 + 32 * k + 9) % 16 = 9 := by omega
-  have e : (128 + 32 * k + 9) / 16 % 2 = 0 := by omega
-  rw [decodePostByte_cons, if_neg a, b, d, e]
-  simp [hi_lo]
+  have hf : fitsWord i false = true := by simp [fitsWord]; omega
+  refine enc_idx_fit (ad := [wordField i false / 256, wordField i false % 256]) hpr hsp hlk ht rfl rfl rfl (by omega) rfl
+    (.word hf) (by simp [hs]) ?_
+  rw [decode_off16 hk4 (Or.inl rfl), wordField_pos, hi_lo]
+  simp
+
+/-- `-n,R`, 129 ≤ n ≤ 32768: post byte, then the two's complement word; `size` counts both bytes -/
+theorem enc_off_neg16 (hk : o.kind = .indexed) (hc : r.ind = some c) (hlk : lookup c = some (opOf r.mnemonic, .idx))
+    (hs : r.indSz = opcodeLen c + 1) (hl : o.left = .val (.numeric i h m true)) (h1 : 129 ≤ i) (h2 : i ≤ 32768)
+    (hk4 : k < 4) (hr : o.right = some (regName k)) :
+    Encodes o r (.idx (.off k (-(i : Int)) false 16)) := by
+  have h0 := cell_ne_zero hlk (by decide)
+  have hp : regBits (regName k) ||| ((if false = true then 0x90 else 0x80) + 0x09) = 128 + 32 * k + 9 := by
+    rw [regBits_regName k hk4]; exact or_high k hk4 9 (by omega)
+  have ht : translateOperand o r = translateIndexed o r := by simp [translateOperand, hk]
+  rw [translateIndexed_offset hc h0 (cell_lt hlk) hl (by omega) hr,
+    translateOffset_neg16 hc (cell_lt hlk) (regName_plain k hk4) h1 h2 (by rw [hp]; omega), hp] at ht
+  have hf : fitsWord (0x10000 - i) false = true := by simp [fitsWord]; omega
+  refine enc_idx_fit (ad := [wordField (0x10000 - i) false / 256, wordField (0x10000 - i) false % 256]) hpr hsp hlk ht
+    rfl rfl rfl (by omega) rfl (.word hf) (by simp [hs]) ?_
+  rw [decode_off16 hk4 (Or.inl rfl), wordField_pos, hi_lo, sext16_neg (by omega) h2]
+  simp
 
 /-- `[n,R]` with an 8-bit non-negative offset -/
-theorem enc_ind_pos8 {o : Operand} {r : InstrRow} {c i k : Nat} {h : Option Nat} {m : Mode}
-    (hk : o.kind = .extIndirect) (hc : r.ind = some c) (hlk : lookup c = some (opOf r.mnemonic, .idx))
+theorem enc_ind_pos8 (hk : o.kind = .extIndirect) (hc : r.ind = some c) (hlk : lookup c = some (opOf r.mnemonic, .idx))
     (hs : r.indSz = opcodeLen c + 1) (hna : o.value.isAddress = false) (hnn : o.value.isNumeric = false)
     (hl : o.left = .val (.numeric i h m false)) (h1 : 1 ≤ i) (h2 : i ≤ 127)
-    (hh : h = none ∨ h = some 2) (hk4 : k < 4) (hr : o.right = some (regName k)) :
+    (hk4 : k < 4) (hr : o.right = some (regName k)) :
     Encodes o r (.idx (.off k i true 8)) := by
   have h0 := cell_ne_zero hlk (by decide)
   have hp : (0x80 ||| regBits (regName k)) ||| ((if true = true then 0x90 else 0x80) + 0x08) = 128 + 32 * k + 24 := by
@@ -210,18 +301,30 @@ theorem enc_ind_pos8 {o : Operand} {r : InstrRow} {c i k : Nat} {h : Option Nat}
   have ht : translateOperand o r = translateExtIndirect o r := by simp [translateOperand, hk]
   rw [translateExtInd_offset hc h0 (cell_lt hlk) hna hnn hl (by omega) hr,
     translateOffset_pos8 hc (cell_lt hlk) (regName_plain k hk4) (Or.inl rfl) h2 (by rw [hp]; omega), hp] at ht
-  refine enc_idx_gen (ad := [i]) hlk ht rfl rfl (by omega) (emit_byte m (by omega) hh) (by simp [hs]) ?_
-  have a : ¬ 128 + 32 * k + 24 < 128 := by omega
-  have b : (128 + 32 * k + 24) / 32 % 4 = k := by omega
-  have d : (128 + 32 * k + 24) % 16 = 8 := by omega
-  have e : (128 + 32 * k + 24) / 16 % 2 = 1 := by omega
-  have f : ¬ i ≥ 128 := by omega
-  rw [decodePostByte_cons, if_neg a, b, d, e]
-  simp [sext, f]
+  have hf : fitsByte i false = true := by simp [fitsByte]; omega
+  refine enc_idx_fit (ad := [byteField i false]) hpr hsp hlk ht rfl rfl rfl (by omega) rfl (.byte hf) (by simp [hs]) ?_
+  rw [decode_off8 hk4 (Or.inr rfl), byteField_pos, sext8_pos h2]
+  simp
+
+/-- `[-n,R]`, 1 ≤ n ≤ 128 (there is no 5-bit indirect form) -/
+theorem enc_ind_neg8 (hk : o.kind = .extIndirect) (hc : r.ind = some c) (hlk : lookup c = some (opOf r.mnemonic, .idx))
+    (hs : r.indSz = opcodeLen c + 1) (hna : o.value.isAddress = false) (hnn : o.value.isNumeric = false)
+    (hl : o.left = .val (.numeric i h m true)) (h1 : 1 ≤ i) (h2 : i ≤ 128)
+    (hk4 : k < 4) (hr : o.right = some (regName k)) :
+    Encodes o r (.idx (.off k (-(i : Int)) true 8)) := by
+  have h0 := cell_ne_zero hlk (by decide)
+  have hp : (0x80 ||| regBits (regName k)) ||| ((if true = true then 0x90 else 0x80) + 0x08) = 128 + 32 * k + 24 := by
+    rw [regBits_regName k hk4]; exact or_high' k hk4 24 (by omega)
+  have ht : translateOperand o r = translateExtIndirect o r := by simp [translateOperand, hk]
+  rw [translateExtInd_offset hc h0 (cell_lt hlk) hna hnn hl (by omega) hr,
+    translateOffset_neg8 hc (cell_lt hlk) (regName_plain k hk4) (Or.inl rfl) h1 h2 (by rw [hp]; omega), hp] at ht
+  have hf : fitsByte (0x100 - i) false = true := by simp [fitsByte]; omega
+  refine enc_idx_fit (ad := [byteField (0x100 - i) false]) hpr hsp hlk ht rfl rfl rfl (by omega) rfl (.byte hf) (by simp [hs]) ?_
+  rw [decode_off8 hk4 (Or.inr rfl), byteField_pos, sext8_neg h1 h2]
+  simp
 
 /-- `[n,R]` with a 16-bit non-negative offset -/
-theorem enc_ind_pos16 {o : Operand} {r : InstrRow} {c i k : Nat} {h : Option Nat} {m : Mode}
-    (hk : o.kind = .extIndirect) (hc : r.ind = some c) (hlk : lookup c = some (opOf r.mnemonic, .idx))
+theorem enc_ind_pos16 (hk : o.kind = .extIndirect) (hc : r.ind = some c) (hlk : lookup c = some (opOf r.mnemonic, .idx))
     (hs : r.indSz = opcodeLen c + 1) (hna : o.value.isAddress = false) (hnn : o.value.isNumeric = false)
     (hl : o.left = .val (.numeric i h m false)) (h1 : 128 ≤ i) (h2 : i < 65536)
     (hk4 : k < 4) (hr : o.right = some (regName k)) :
@@ -232,12 +335,30 @@ theorem enc_ind_pos16 {o : Operand} {r : InstrRow} {c i k : Nat} {h : Option Nat
   have ht : translateOperand o r = translateExtIndirect o r := by simp [translateOperand, hk]
   rw [translateExtInd_offset hc h0 (cell_lt hlk) hna hnn hl (by omega) hr,
     translateOffset_pos16 hc (cell_lt hlk) (regName_plain k hk4) h1 h2 (by rw [hp]; omega), hp] at ht
-  refine enc_idx_gen (ad := [i / 256, i % 256]) hlk ht rfl rfl (by omega) (emit_hint4 _ h2) (by simp [hs]) ?_
-  have a : ¬ 128 + 32 * k + 25 < 128 := by omega
-  have b : (128 + 32 * k + 25) / 32 % 4 = k := by omega
-  have d : (128 + 32 * k + 25) % 16 = 9 := by omega
-  have e : (128 + 32 * k + 25) / 16 % 2 = 1 := by omega
-  rw [decodePostByte_cons, if_neg a, b, d, e]
-  simp [hi_lo]
+  have hf : fitsWord i false = true := by simp [fitsWord]; omega
+  refine enc_idx_fit (ad := [wordField i false / 256, wordField i false % 256]) hpr hsp hlk ht rfl rfl rfl (by omega) rfl
+    (.word hf) (by simp [hs]) ?_
+  rw [decode_off16 hk4 (Or.inr rfl), wordField_pos, hi_lo]
+  simp
+
+/-- `[-n,R]`, 129 ≤ n ≤ 32768 -/
+theorem enc_ind_neg16 (hk : o.kind = .extIndirect) (hc : r.ind = some c) (hlk : lookup c = some (opOf r.mnemonic, .idx))
+    (hs : r.indSz = opcodeLen c + 1) (hna : o.value.isAddress = false) (hnn : o.value.isNumeric = false)
+    (hl : o.left = .val (.numeric i h m true)) (h1 : 129 ≤ i) (h2 : i ≤ 32768)
+    (hk4 : k < 4) (hr : o.right = some (regName k)) :
+    Encodes o r (.idx (.off k (-(i : Int)) true 16)) := by
+  have h0 := cell_ne_zero hlk (by decide)
+  have hp : (0x80 ||| regBits (regName k)) ||| ((if true = true then 0x90 else 0x80) + 0x09) = 128 + 32 * k + 25 := by
+    rw [regBits_regName k hk4]; exact or_high' k hk4 25 (by omega)
+  have ht : translateOperand o r = translateExtIndirect o r := by simp [translateOperand, hk]
+  rw [translateExtInd_offset hc h0 (cell_lt hlk) hna hnn hl (by omega) hr,
+    translateOffset_neg16 hc (cell_lt hlk) (regName_plain k hk4) h1 h2 (by rw [hp]; omega), hp] at ht
+  have hf : fitsWord (0x10000 - i) false = true := by simp [fitsWord]; omega
+  refine enc_idx_fit (ad := [wordField (0x10000 - i) false / 256, wordField (0x10000 - i) false % 256]) hpr hsp hlk ht
+    rfl rfl rfl (by omega) rfl (.word hf) (by simp [hs]) ?_
+  rw [decode_off16 hk4 (Or.inr rfl), wordField_pos, hi_lo, sext16_neg (by omega) h2]
+  simp
+
+end fitted
 
 end CoCo.Asm
